@@ -99,7 +99,7 @@ class Lexer:
 
     def __init__(self, source: Union[str, bytes]):
         self._source = ensure_unicode(source)
-        self._len = len(source)
+        self._len = len(self._source)
         self._done = False
         self._started = False
         self._position = 0
